@@ -576,6 +576,13 @@ func ParseResponse(proto string, unary bool, reqContentType string, status int, 
 		d.Header = http.Header{}
 	}
 	ct := header.Get("Content-Type")
+	// HTTP-level sanity, whatever the protocol: one content type, and a declared length is the body's
+	if n := len(header.Values("Content-Type")); n > 1 {
+		d.bad("%d Content-Type values in the response", n)
+	}
+	if cl := header.Values("Content-Length"); len(cl) > 0 && (len(cl) > 1 || cl[0] != strconv.Itoa(len(body))) {
+		d.bad("Content-Length %v, body of %d bytes", cl, len(body))
+	}
 	switch proto {
 	case Connect:
 		if unary {
